@@ -207,17 +207,19 @@ def split(raw):
 # ---- mining (fixtures) ------------------------------------------------------------------------------
 
 def mine(params, prev, prev_prev, ts, merkle=b'\x11' * 32, trie=b'\x22' * 32, version=1, nonce_start=0,
-         want_pow=True, bits=None, prev_hash=None, pow_target=None, max_tries=1 << 32):
+         want_pow=True, bits=None, prev_hash=None, pow_target=None, pow_ceiling=None, max_tries=1 << 32):
     """Smallest nonce >= nonce_start such that (PoW hash <= target) == want_pow.
     bits / prev_hash / pow_target override what the rules demand (for deliberately invalid headers);
-    the PoW target defaults to SetCompact(bits) of the header being made."""
+    the PoW target defaults to SetCompact(bits) of the header being made.  With want_pow=False and
+    pow_ceiling the hash is additionally kept <= pow_ceiling ("just not good enough")."""
     b = required_bits(params, prev_prev, prev) if bits is None else bits
     ph = (header_hash(prev) if prev is not None else b'\x00' * 32) if prev_hash is None else prev_hash
     tgt = set_compact(b)[0] if pow_target is None else pow_target
     base = struct.pack('<I', version) + ph + merkle + trie + struct.pack('<II', ts, b)
     for n in range(nonce_start, nonce_start + max_tries):
         h = base + struct.pack('<I', n & 0xffffffff)
-        if (pow_hash_int(h) <= tgt) == want_pow:
+        p = pow_hash_int(h)
+        if (p <= tgt) == want_pow and (pow_ceiling is None or p <= pow_ceiling):
             return h
     raise RuntimeError('no nonce found')
 
